@@ -109,7 +109,7 @@ def do_map_async(pl, pdesc, inp, run_folder, storage, executor, **kw):
     return events, res
 
 
-def run_pool(scen: dict, storage, pool_kind: str, rng_seed: int, per_output: bool) -> dict:
+def run_pool(scen: dict, storage, pool_kind: str, rng_seed: int, per_output: bool, folder: bool = True) -> dict:
     """Real pools with seeded delays inside the user functions; events ordered by the append-only log file."""
     pdesc = pmap.tla_desc_to_py(scen["desc"])
     tmp = tempfile.mkdtemp(prefix="pfverif_c03p_")
@@ -138,7 +138,8 @@ def run_pool(scen: dict, storage, pool_kind: str, rng_seed: int, per_output: boo
         else:
             ex = mk()
             execs = [ex]
-        evs, res = pmap.do_map(pl, pdesc, inp, run_folder=tmp, storage=storage, parallel=True, executor=ex)
+        evs, res = pmap.do_map(pl, pdesc, inp, run_folder=tmp if folder else None, storage=storage, parallel=True,
+                               executor=ex)
     finally:
         build.DELAY = None
         for e in execs:
@@ -225,6 +226,11 @@ def run(ctx: Ctx) -> None:
         kind = "thread" if k % 2 == 0 else "process"
         st = STORAGES[k % 3] if kind == "thread" else ["file_array", "shared_memory_dict"][k % 2]
         pools.append(run_pool(sc, st, kind, ctx.seed * 1000 + k, per_output=(k % 3 == 0)))
+    # memory storage without a run folder (results only live in the parent's store) on pipelines with functions that
+    # have no MapSpec / generators, through process and thread pools
+    for k, sn in enumerate([s for s in ("chain", "gen", "partial") if s in scens]):
+        for kind in ("process", "thread"):
+            pools.append(run_pool(scens[sn], "dict", kind, ctx.seed * 1000 + 500 + k, per_output=False, folder=False))
     for t in pools:
         ctx.case({"pool": t["entry"], "st": t["storage"], "d": t["desc"], "order": [(e["e"], e["f"]) for e in t["ev"]]})
     validate(ctx, pools, "pools")
